@@ -198,4 +198,65 @@ def gen_blocks(seed, n, min_len=1, max_len=40, **kw):
 
 def snippet_blocks():
     """Every rule snippet as a block of its own, with operands from the input stack."""
-    return list(RULE_SNIPPETS)
+    return list(RULE_SNIPPETS) + systematic_rule_blocks()
+
+
+CONSTS3 = ["0", "1", "2", "ffffffffffffffffffffffffffffffffffffffffffffffffffffffffffffffff"]
+
+
+def systematic_rule_blocks():
+    """Every unary/binary/ternary operation with a constant 0, 1, 2, 2^256-1 as first operand, as second operand,
+    and with both operands equal (operands otherwise from the input stack)."""
+    out = []
+    for op in OP2:
+        for c in CONSTS3:
+            out.append("PUSH %s %s" % (c, op))            # constant is the first (top) operand
+            out.append("PUSH %s SWAP1 %s" % (c, op))      # constant is the second operand
+        out.append("DUP1 %s" % op)
+    for op in OP1:
+        for c in CONSTS3:
+            out.append("PUSH %s %s" % (c, op))
+        out.append("%s %s" % (op, op))
+    for op in OP3:
+        for c in ("0", "1"):
+            out.append("PUSH %s SWAP2 %s" % (c, op))      # modulus constant
+            out.append("PUSH %s %s" % (c, op))
+    return out
+
+
+def mem_boundary_blocks():
+    """Systematic family around the edges of memory accesses: a 32-byte word at `a` against a byte or word access whose
+    offset is a-32 .. a+32 (first byte, last byte, one past, one before), with constant and base+constant offsets, for
+    MSTORE/MSTORE8/MLOAD/KECCAK256 in the orders store-store-load, load-store-load, store-store-store, store-hash."""
+    out = []
+    for a in (0, 0x40):
+        for d in (-32, -31, -1, 0, 1, 30, 31, 32):
+            b = a + d
+            if b < 0:
+                continue
+            A, B = hexc(a), hexc(b)
+            out.append("PUSH 5 PUSH %s MSTORE PUSH 7 PUSH %s MSTORE8 PUSH %s MLOAD" % (A, B, A))
+            out.append("PUSH %s MLOAD SWAP1 PUSH %s MSTORE8 PUSH %s MLOAD ADD" % (A, B, A))
+            out.append("DUP1 PUSH %s MSTORE PUSH 7 PUSH %s MSTORE8 PUSH %s MSTORE" % (A, B, A))
+            out.append("PUSH 7 PUSH %s MSTORE8 PUSH 20 PUSH %s KECCAK256" % (B, A))
+            if d != 0:
+                out.append("PUSH 5 PUSH %s MSTORE PUSH 7 PUSH %s MSTORE PUSH %s MLOAD" % (A, B, A))
+                out.append("PUSH %s MLOAD SWAP1 PUSH %s MSTORE PUSH %s MLOAD ADD" % (A, B, A))
+                out.append("PUSH 7 PUSH %s MSTORE PUSH 20 PUSH %s KECCAK256" % (B, A))
+                out.append("DUP1 PUSH %s MSTORE DUP2 PUSH %s MSTORE8 PUSH %s MLOAD PUSH %s MLOAD" % (A, B, B, A))
+    for d in (0, 1, 0x1e, 0x1f, 0x20, 0x21):
+        D = hexc(d)
+        out.append("PUSH 5 DUP2 MSTORE PUSH 7 DUP2 PUSH %s ADD MSTORE8 DUP1 MLOAD" % D)
+        out.append("DUP1 MLOAD DUP3 DUP3 PUSH %s ADD MSTORE8 DUP2 MLOAD ADD" % D)
+        if d:
+            out.append("PUSH 5 DUP2 MSTORE PUSH 7 DUP2 PUSH %s ADD MSTORE DUP1 MLOAD" % D)
+            out.append("PUSH 7 DUP2 PUSH %s ADD MSTORE PUSH 20 DUP2 KECCAK256" % D)
+    st = 0x20
+    for ln in (1, 0x1f, 0x20, 0x21, 0x40):
+        for c in sorted({st - 32, st - 31, st - 1, st, st + 1, st + ln - 1, st + ln, st + ln - 32, st + ln - 31}):
+            if c >= 0:
+                out.append("PUSH 7 PUSH %s MSTORE PUSH %s PUSH %s KECCAK256" % (hexc(c), hexc(ln), hexc(st)))
+                out.append("PUSH %s PUSH %s KECCAK256 PUSH 7 PUSH %s MSTORE PUSH %s PUSH %s KECCAK256" % (hexc(ln), hexc(st), hexc(c), hexc(ln), hexc(st)))
+        for b in (st - 1, st, st + ln - 1, st + ln):
+            out.append("PUSH 7 PUSH %s MSTORE8 PUSH %s PUSH %s KECCAK256" % (hexc(b), hexc(ln), hexc(st)))
+    return out
